@@ -42,7 +42,8 @@ class _RandomProxy:
         self.tape = tape
 
     def seed(self, s=None):
-        self.tape.rng.seed(s)
+        # seed None = "fresh entropy before every draw": taken from the harness rng so that a run is reproducible
+        self.tape.rng.seed(self.tape.aux.getrandbits(64) if s is None else s)
 
     def sample(self, population, k):
         return self.tape.sample(population, k)
@@ -55,7 +56,7 @@ class _RandomProxy:
 
 
 class Tape:
-    """mode: ('seed', None) real generator; ('low'|'high'|'rand'|'comb', salt) invented draws; ('replay', tape)"""
+    """mode: ('seed', salt) real generator; ('low'|'high'|'rand'|'comb', salt) invented draws; ('replay', tape)"""
 
     def __init__(self, mode, arg=None):
         self.mode, self.arg = mode, arg
@@ -365,7 +366,7 @@ def gen(rng, count, boundary=False):
         mode = rng.choice(['seed', 'seed', 'rand', 'rand', 'low', 'high', 'comb'])
         if mode == 'seed':
             c['seed'] = rng.choice([0, 1, 2, 3, 4, 5, 17, None])
-            record(c, 'seed')
+            record(c, 'seed', rng.randint(0, 10 ** 6))
         else:
             record(c, mode, rng.randint(0, 10 ** 6))
         yield c
